@@ -437,6 +437,21 @@ pub fn live_layout(addr: usize) -> Option<(usize, usize)> {
     }
 }
 
+/// 0 = not a block start known to the monitor, 1 = live block, 2 = freed (still quarantined) block.
+pub fn state_at(addr: usize) -> u8 {
+    if !active() {
+        return 0;
+    }
+    let _g = lock();
+    unsafe {
+        match st().find(addr) {
+            Some(e) if e.state == 1 => 1,
+            Some(e) if e.state == 2 => 2,
+            _ => 0,
+        }
+    }
+}
+
 /// The live tracked block containing `addr`, if any (linear scan; diagnostics / bounds checks).
 pub fn block_containing(addr: usize) -> Option<(usize, usize, usize)> {
     if !active() {
